@@ -32,7 +32,7 @@ EXPECTED_PROBES = ['start-stack-grown', 'pop-empty-stack', 'eof-action']
 
 class P(sb.StreamProp):
     ID = ID
-    CLASSES = {'start', 'fatal', 'activation', 'scope'}
+    CLASSES = {'sanitizer', 'crash', 'start', 'fatal', 'activation', 'scope'}
     USE_MATCHER = False
 
     def gen_scenario(self, rng):
